@@ -376,6 +376,26 @@ def c22(tier, seed):
     return res.finish()
 
 
+def c02(tier, seed):
+    res = Result("C02", tier, seed)
+    core.build()
+    q = tier == "quick"
+    mc_cfg(res, "NutsMC_kv", inv=["MCReopenInv", "TypeOK"], props=[], timeout=1800)
+    shards = []
+    for rw in ("fileio", "mmap"):
+        shards += fam_shards([("kv", ["-mode", "sparse", "-rw", rw])], seed, 2 if q else 20, 3 if q else 4, 40 if q else 100)
+    rs = core.drive_and_validate(res, shards, core.dev_set(), "a sparse-mode Get or GetAll (or a reopen) returned something else than the live pairs of the bucket",
+                                 "single-bucket Put/PutWithTimestamp/Delete histories in HintBPTSparseIdxMode with 128-512 byte segments (most keys in sealed segments), Close/Open every ~12 transactions")
+    res.cov["samples"] = core.sample_events(rs[0]["trace"], 6, ops={"get", "obs", "open"})
+    ops = res.extra.get("events_by_op", {})
+    res.cov["distinct_nontrivial"] = ops.get("get", 0) + ops.get("obs", 0)
+    res.cov["rule"] = ("non-trivial = Get calls and full observations (GetAll of the bucket), each compared exactly by TLC with the ordered-map model; "
+                       "RangeScan/PrefixScan results in sparse mode are recorded but, under the known finding F-C02-1, not constrained")
+    res.assumptions += ["single-bucket histories with unambiguous bucket+key concatenations (the statement's scope)",
+                        "RangeScan and PrefixScan are not judged in sparse mode (known finding F-C02-1: they miss live keys of sealed segments and can return superseded values)"]
+    return res.finish()
+
+
 def c15(tier, seed):
     res = Result("C15", tier, seed)
     core.build()
@@ -394,7 +414,7 @@ def c15(tier, seed):
     return res.finish()
 
 
-CHECKS = {"C22": c22, "C20": c20, "C03": c03, "C19": c19, "C04": c04, "C10": c10, "C11": c11, "C16": c16, "C09": c09, "C15": c15, "C01": c01, "C05": c05, "C06": c06, "C07": c07, "C08": c08, "C12": c12, "C13": c13}
+CHECKS = {"C02": c02, "C22": c22, "C20": c20, "C03": c03, "C19": c19, "C04": c04, "C10": c10, "C11": c11, "C16": c16, "C09": c09, "C15": c15, "C01": c01, "C05": c05, "C06": c06, "C07": c07, "C08": c08, "C12": c12, "C13": c13}
 
 
 def main(argv):
